@@ -93,7 +93,7 @@ CLAIMED = {
         "FILE TO FILE against the APNG specification (Spec/Apng.v, written from the specification: frames opened by fcTL, default image as frame 0 when its fcTL precedes IDAT, fdAT data of the last opened frame, one sequence counter): "
         "for every input the specification reads as an animation (animation chunks kept, file below 4 GiB, no empty IDAT chunk) the result is the input or the serialisation of a chunk sequence whose animation has the same number of frames in the same order "
         "with identical size, offset, delay, dispose and blend fields and default-image flag, frame data unchanged or strictly smaller (C10_file_to_file; C10_parsed_animation, C10_written_animation). "
-        "A kept animation is written with exactly the header of the input - palette / key, depth, interlacing (C10_header_untouched) - and every frame decodes under that one header to the same picture (C10_animation_frames_pixels). "
+        "A kept animation is written with exactly the header of the input - palette / key, depth, interlacing (C10_header_untouched) - every frame decodes under that one header to the same picture (C10_animation_frames_pixels), and the acTL chunks (frame count, play count) of the written sequence are those of the input (C10_control_file_to_file). "
         "model replay, structural comparison of input and output, every frame decoded by the extracted specification.",
    design="DESIGN.md §3 C10",
    note=BASE_NOTE + "the frame-pixel theorem is under the zlib oracle assumption; every frame of every output is also decoded per run. F6 was repaired (fix 0e2fef8).",
